@@ -5,7 +5,7 @@ from mgrbase import MgrBase, rand_bits
 class C14(MgrBase):
     id = "C14"
     proof_target = "Props/C14.vo"
-    theorems = ["C14_bitfield_bound", "C14_rotation_bound", "C14_slots_interested", "C14_rate_order", "C14_map_exact", "C14_messages_follow_map", "C14_timer_wrapper"]
+    theorems = ["C14_bitfield_bound", "C14_rotation_bound", "C14_slots_interested", "C14_rate_order", "C14_map_exact", "C14_messages_follow_map", "C14_timer_wrapper", "C14_rate_uploads_counted", "C14_rate_block_counted", "C14_rate_refused_block", "C14_rate_reports_exact"]
     coq_header = ("From Rdest Require Import Base Consts Wire Manager Corr.Mgr.\nOpen Scope N_scope.\n"
                   "Definition codes := codes14.\n")
     rule = ("histories of 0-25 peers: handshakes and bitfield arrivals (each may unchoke the newcomer), interest changes, "
@@ -95,4 +95,88 @@ class C14(MgrBase):
         return "rotate %s %s" % (",".join(rates) or "-", opt)
 
 
+from hndbase import HndBase, Scenario, ev_wait
+from c10 import download_scenario
+from c09 import upload_scenario
+
+
+def with_waits(rng, ev, head):
+    """waits between the events of a scenario, so that the 10 s statistics timer ticks many times while blocks flow; a
+    few quiet intervals at the end"""
+    out = list(ev[:head])
+    for e in ev[head:]:
+        out.append(e)
+        if rng.random() < 0.45:
+            out.append(ev_wait(rng.choice([1000, 4000, 7000, 10000, 10000, 13000, 21000])))
+    for _ in range(rng.choice([2, 3, 4])):
+        out.append(ev_wait(rng.choice([10000, 10000, 15000])))
+    return out
+
+
+def upload_rate_scenario(rng, n, plens, outgoing):
+    """a peer that keeps downloading from us: every piece stored, the peer unchoked, valid requests at varied offsets and
+    lengths, a few refused ones in between"""
+    from hndbase import greet, ev_store, ev_bown, ev_msg, m_request, m_bitfield, INTERESTED, BLOCK
+    ev, _ = greet(rng, outgoing, n)
+    head = len(ev)
+    for i in range(n):
+        ev.append(ev_store(i))
+    ev.append(ev_msg(INTERESTED))
+    ev.append(ev_bown(False))
+    for _ in range(rng.choice([4, 8, 14])):
+        i = rng.randrange(n)
+        pl = plens[i]
+        b = rng.choice([0, 0, 1, pl // 2, max(0, pl - 1), rng.randrange(pl)])
+        l = rng.choice([1, max(1, pl - b), min(BLOCK, max(1, pl - b)), rng.randrange(1, max(2, min(BLOCK, pl - b) + 1))])
+        l = min(l, BLOCK, max(1, pl - b))
+        if rng.random() < 0.15:
+            l = BLOCK + 1                    # refused: too long
+        ev.append(ev_msg(m_request(i, b, l), req="LOAD:%d" % i))
+    return ev, head + n + 2
+
+
+class C14Rates(HndBase):
+    """the "measured rate" the rotation ranks by: download and upload histories on the real PeerHandler with the virtual
+    clock advancing between events; every SyncStats report the task sends (downloaded rate, uploaded rate, unexpected
+    blocks) is compared with the model: the call sites of the statistics (HStats.v: accepted block -> downloaded,
+    block nobody asked for -> unexpected, piece message written -> uploaded) composed with the counters of Stats.v"""
+    id = "C14"
+    coq_header = ("From Rdest Require Import Base Consts Wire Manager Handler Corr.Hnd.\nOpen Scope N_scope.\n"
+                  "Definition codes := codes14r.\n")
+    rule = ""
+
+    def model_term(self, c):
+        return "(k_run (%s) true (init_mst (%s)) (hc_steps (%s)), s_run (%s) true (init_mst (%s)) Stats.stats_new (hc_steps (%s)))" % ((c.term,) * 6)
+
+    def corpus(self):
+        import random
+        out = []
+        for k, pl in enumerate([[16384], [40000, 7]]):
+            r = random.Random(k)
+            out.append(self.case(Scenario(False, pl, 500 + k, with_waits(r, download_scenario(r, pl, 500 + k, False), 3), "rates-download")))
+        return out
+
+    def gen(self, rng, tier):
+        k = {"quick": 60, "thorough": 1500, "search": 300}.get(tier, 60)
+        cases = []
+        for _ in range(k):
+            n = rng.choice([1, 2, 3])
+            plens = [rng.choice([1, 5, 16383, 16384, 16385, 20000, 32768, 40000]) for _ in range(n)]
+            seed = rng.randrange(1, 10 ** 6)
+            outgoing = rng.random() < 0.5
+            if rng.random() < 0.55:
+                ev = with_waits(rng, download_scenario(rng, plens, seed, outgoing), 3)
+                kind = "rates-download"
+            elif rng.random() < 0.7:
+                ev, head = upload_rate_scenario(rng, n, plens, outgoing)
+                ev = with_waits(rng, ev, head)
+                kind = "rates-upload"
+            else:
+                ev = with_waits(rng, upload_scenario(rng, n, plens, outgoing), 2)
+                kind = "rates-upload-mixed"
+            cases.append(self.case(Scenario(outgoing, plens, seed, ev, kind)))
+        return cases
+
+
 PROP = C14()
+PROP.parts = [PROP, C14Rates()]
